@@ -89,10 +89,10 @@ func genRelabels(t *rapid.T, label string, metric bool, max int) []Relabel {
 			r.Regex = rapid.SampledFrom([]string{"", "(.*)", "([^:]+):.*", "a|b", "(.+);(.+)", longRegex}).Draw(t, l+"-re")
 			r.Target = rapid.SampledFrom([]string{"instance", "dc", "tmp_label", "__tmp_a"}).Draw(t, l+"-target")
 			if rapid.Bool().Draw(t, l+"-hasRep") {
-				r.Replacement = strp(rapid.SampledFrom([]string{"$1", "${1}:9100", "fixed", "a: b", longValue + " $1"}).Draw(t, l+"-rep"))
+				r.Replacement = strp(rapid.SampledFrom([]string{"$1", "${1}:9100", "fixed", "a: b", "", longValue + " $1"}).Draw(t, l+"-rep"))
 			}
 			if rapid.IntRange(0, 3).Draw(t, l+"-sepOn") == 0 {
-				r.Separator = rapid.SampledFrom([]string{";", "-", "@"}).Draw(t, l+"-sep")
+				r.Separator = rapid.SampledFrom([]string{";", "-", "@", EmptySeparator}).Draw(t, l+"-sep")
 			}
 		case 1:
 			r.Action = rapid.SampledFrom([]string{"keep", "drop"}).Draw(t, l+"-act")
